@@ -167,6 +167,8 @@ class Interp:
             return EnumCls(name)
         if name in self.modules:
             return ("module", name)
+        if name == "__name__":
+            return "__main__"
         raise NotJudged(f"name {name}")
 
     def store(self, name, v, loc, gl, G):
@@ -457,8 +459,12 @@ class Interp:
         if T is ast.Compare:
             if len(e.ops) != 1 or type(e.ops[0]) not in CMPOP:
                 raise NotJudged("compare form")
-            l = self.num(self.ev(e.left, loc, gl, G, F))
-            r = self.num(self.ev(e.comparators[0], loc, gl, G, F))
+            lv = self.ev(e.left, loc, gl, G, F)
+            rv = self.ev(e.comparators[0], loc, gl, G, F)
+            if isinstance(lv, str) and isinstance(rv, str) and isinstance(e.ops[0], (ast.Eq, ast.NotEq)):
+                return float((lv == rv) == isinstance(e.ops[0], ast.Eq))
+            l = self.num(lv)
+            r = self.num(rv)
             return float(BIN[CMPOP[type(e.ops[0])]](l, r))
         if T is ast.IfExp:
             c = self.num(self.ev(e.test, loc, gl, G, F))
